@@ -528,6 +528,31 @@ def reductions(ctx, table):
                        loc=loc, sample={'fn': name})
         except Unsupported as e:
             rep.unk('R4', name, str(e))
+    # the contiguous copy is one block copy of n elements
+    fn = ctx.fn('math', 'a_real_copy')
+    if fn is None:
+        rep.unk('R4', 'a_real_copy', 'anchor vanished')
+    else:
+        loc = fn.loc(fn.entry.instrs[0])
+        try:
+            dom = RDom(table)
+            n = dom.sym('n', integer=True, nonnegative=True)
+            lv = symx.Interp(dom, lambda nm: None).run(fn, [n, Ptr('D', 0), Ptr('S', 0)])
+            probs = []
+            for lf in lv:
+                cl = [c for c in lf.calls if isinstance(c, tuple) and c[0] in ('a_copy', 'a_move') or (isinstance(c, tuple) and str(c[0]).startswith('llvm.memcpy'))]
+                if len(cl) != 1:
+                    probs.append('%d block copies' % len(cl))
+                    continue
+                a = cl[0][1]
+                if not (isinstance(a[0], Ptr) and a[0] == Ptr('D', 0) and isinstance(a[1], Ptr) and a[1] == Ptr('S', 0) and alg.is_zero(sp.sympify(a[2]) - 8 * n)):
+                    probs.append('copies (%s, %s, %s), expected (dst, src, %d * n)' % (a[0], a[1], a[2], 8))
+            if probs or not lv:
+                rep.bad('R4', 'a_real_copy', '; '.join(sorted(set(probs))) or 'no path', loc=loc, key='a_real_copy: block copy')
+            else:
+                rep.ok('R4', 'a_real_copy', 'one block copy of sizeof(a_real) * n bytes from src to dst', loc=loc)
+        except Unsupported as e:
+            rep.unk('R4', 'a_real_copy', str(e))
     # element-wise helpers
     E = {'a_real_copy_': 'copy', 'a_real_swap': 'swap', 'a_real_swap_': 'swap', 'a_real_fill': 'fill', 'a_real_zero': 'zero'}
     for name, kind in sorted(E.items()):
